@@ -167,7 +167,7 @@ def specs_not_written(ctx):
 ALLOWED_GLOBAL_WRITERS = {
     # (unit qualname, global object prefix) -> reason
     ('core.Path.from_text', 'core.Path._CACHE'): 'path parse memo (C06.4)',
-    ('core.Path.from_text.create', 'core.Path'): 'one-time deprecation warning flag _STAR_WARNED',
+    ('core.Path.from_text.<nested>', 'core.Path'): 'one-time deprecation warning flag _STAR_WARNED',
     ('core.register', 'core._DEFAULT_SCOPE'): 'explicit registration API (registrations are an input of C06)',
     ('core.register_op', 'core._DEFAULT_SCOPE'): 'explicit registration API',
 }
@@ -185,7 +185,10 @@ def closed_inventory(ctx):
         if e.unit.module.short == 'cli':
             continue
         for obj in g:
-            ok = any(e.unit.qualname == uq and obj.startswith(pref) for (uq, pref) in ALLOWED_GLOBAL_WRITERS)
+            uq_here = e.unit.qualname
+            if e.unit.parent is not None and e.unit.parent.qualname == 'core.Path.from_text':
+                uq_here = 'core.Path.from_text.<nested>'
+            ok = any(uq_here == uq and obj.startswith(pref) for (uq, pref) in ALLOWED_GLOBAL_WRITERS)
             key = (e.unit.qualname, obj)
             if ok:
                 if key not in seen:
@@ -232,8 +235,8 @@ def closed_inventory(ctx):
 @rule('C06.4')
 def memo_discipline(ctx):
     p = ctx.program
-    u = ctx.unit('core.Path.from_text')
-    cu = ctx.unit('core.Path.from_text.create')
+    from .c01 import from_text_units
+    u, cu = from_text_units(ctx)
     cfg = ctx.cfg(u)
     text = u.params[1]
     # cache selection by PATH_STAR: every reassignable global the computation reads is in the key or selection
@@ -265,7 +268,7 @@ def memo_discipline(ctx):
     stores = [n for n in u.own_nodes() if isinstance(n, ast.Assign) and isinstance(n.targets[0], ast.Subscript)
               and is_name(n.targets[0].value, cache)]
     ok = len(stores) == 1 and is_name(stores[0].targets[0].slice, text) and isinstance(stores[0].value, ast.Call) \
-        and is_name(stores[0].value.func, 'create') and not stores[0].value.args
+        and is_name(stores[0].value.func, cu.name) and not stores[0].value.args
     ctx.ob(ok, u, 'the memo stores create() under the unmodified text: %s' % [norm(s) for s in stores])
     # create() closes over the same text (no normalisation)
     ctx.ob(not [n for n in cu.own_nodes() if isinstance(n, ast.Name) and n.id == text and isinstance(n.ctx, ast.Store)]
@@ -278,7 +281,7 @@ def memo_discipline(ctx):
         if isinstance(v, ast.Subscript):
             ctx.ob(is_name(v.value, cache) and is_name(v.slice, text), u, 'a hit returns the entry of this text: %s' % norm(r), node=r)
         else:
-            ok = isinstance(v, ast.Call) and is_name(v.func, 'create')
+            ok = isinstance(v, ast.Call) and is_name(v.func, cu.name)
             g = [a for a in ancestors(r) if isinstance(a, ast.If)]
             okg = any(isinstance(x.test, ast.Compare) and 'len(%s)' % cache in norm(x.test) for x in g)
             ctx.ob(ok and okg, u, 'on overflow the same computation is returned uncached: %s' % norm(r), node=r)
